@@ -457,6 +457,24 @@ def _is_seed_test(test, derived):
             return "notnone"
         if isinstance(test.ops[0], ast.Is):
             return "none"
+    # `isinstance(seed, (int, np.integer))` (also numbers.Integral): on the seed domain of C17's check - Python ints and numpy
+    # integer scalars - this is the same test as `seed is not None`.  `isinstance(seed, int)` alone is NOT: numpy integers
+    # fall through it, so a seeding call under it stays uncredited.
+    if isinstance(test, ast.Call) and isinstance(test.func, ast.Name) and test.func.id == "isinstance" and len(test.args) == 2 \
+            and not test.keywords and isinstance(test.args[0], ast.Name) and test.args[0].id in derived:
+        ty = test.args[1]
+        names = [_type_name(x) for x in (ty.elts if isinstance(ty, ast.Tuple) else [ty])]
+        if "Integral" in names or ("int" in names and "integer" in names):
+            return "notnone"
+    return None
+
+
+def _type_name(e):
+    """last component of a type expression: int, np.integer -> integer, numbers.Integral -> Integral"""
+    if isinstance(e, ast.Name):
+        return e.id
+    if isinstance(e, ast.Attribute):
+        return e.attr
     return None
 
 
